@@ -126,9 +126,8 @@ theorem ignoreIndentedLines_out (n : Nat) (l : L) : (ignoreIndentedLines n l).1.
 theorem gohtStartSig_out (l : L) : (sumL (gohtStartSig l)).out = l.out := by
   unfold gohtStartSig
   simp only []
-  split
-  · rw [gohtStartLoop_out]; simp
-  · simp [sumL]
+  rw [gohtStartLoop_out]
+  split <;> simp
 theorem lexGohtStart_out (l : L) : (lexGohtStart l).1.out.length ≤ l.out.length + 1 := by
   unfold lexGohtStart
   have h := gohtStartSig_out l
